@@ -4,6 +4,7 @@ go 1.25.5
 
 require (
 	github.com/titpetric/vuego v0.0.0
+	github.com/yuin/goldmark v1.7.16
 	golang.org/x/net v0.51.0
 )
 
